@@ -69,6 +69,25 @@ theorem exponent_rep_invariant (m : Meas) (j11 : Rat) (t : Trip) (r : Rep) :
   have h := setRep_drift m t r
   rw [h.1, h.2]; unfold jumpExp; ring
 
+/-- **the exponent is a function of the ORIGINAL drift and representation only**: along every history of representation
+    changes on one triplet, current drift + jump part in the current representation is what it was at construction
+    (this is why `levy_exponent` may keep `_original_drift` together with its hard-wired native jump exponent) -/
+theorem exponent_walk_invariant (m : Meas) (j11 : Rat) (rs : List Rep) (t : Trip) :
+    (walk m t rs).a + jumpExp m j11 (walk m t rs).rep = t.a + jumpExp m j11 t.rep := by
+  have h := walk_invariant m rs t
+  unfold jumpExp; linarith
+
+/-- negation witness (regression "levy_exponent reads the CURRENT triplet drift but keeps the native jump exponent"):
+    after one conversion the value differs from the exponent of the process by the moved first-moment integral -/
+theorem exponent_current_drift_native_jump_shifts (m : Meas) (j11 : Rat) (t : Trip) (r : Rep) :
+    (setRep m t r).a + jumpExp m j11 t.rep = (t.a + jumpExp m j11 t.rep) + (cRep m r - cRep m t.rep) := by
+  rw [(setRep_drift m t r).1]; ring
+
+theorem exponent_current_drift_native_jump_wrong :
+    ∃ (m : Meas) (j11 : Rat) (t : Trip) (r : Rep), (setRep m t r).a + jumpExp m j11 t.rep ≠ t.a + jumpExp m j11 t.rep := by
+  refine ⟨⟨1/3, 1/7, true⟩, 0, ⟨0, .zero⟩, .center, ?_⟩
+  decide +kernel
+
 /-- negation witness (mutation "CENTER conversion sign flipped"): the round trip ZERO → CENTER → ZERO no longer returns -/
 theorem center_flipped_not_reversible :
     ∃ (m : Meas) (t : Trip), setRepFlipped m (setRepFlipped m t .center) t.rep ≠ t := by
